@@ -97,12 +97,15 @@ function runExprBatch(c) {
   for (const e of c.exprs) {
     const enc = makeEnc();
     try {
-      const v = vm.runInContext('"use strict";\n' + e, ctx, { timeout: 1000 });
+      const v = vm.runInContext('"use strict";\n' + e, ctx, { timeout: 4000 });
       res.push({ ret: enc(v, 0) });
     } catch (ex) {
       let name = null;
       try { name = (ex && typeof ex.name === 'string') ? ex.name : null; } catch (e2) {}
-      res.push({ err: name || 'throw' });
+      // the reference running out of its own wall-clock budget (a loaded machine) decides nothing about this program
+      let timedOut = false;
+      try { timedOut = !!ex && ex.code === 'ERR_SCRIPT_EXECUTION_TIMEOUT'; } catch (e3) {}
+      res.push(timedOut ? null : { err: name || 'throw' });
     }
   }
   return { res: res };
